@@ -25,11 +25,13 @@ import os, re, json, sys, time, glob, random, signal, subprocess, resource, shut
 import concurrent.futures as cf
 
 ROOT = '/verif'
-REPO = '/repo'
-BUILD = os.path.join(ROOT, '.build')
+# VERIF_REPO / VERIF_BUILD: used only by bin/seedtest to run the same checks against a scratch worktree
+# that carries a seeded change (so that /repo itself stays untouched); registered commands never set them.
+REPO = os.environ.get('VERIF_REPO', '/repo')
+BUILD = os.environ.get('VERIF_BUILD') or os.path.join(ROOT, '.build')
 KANI_HOME = os.path.expanduser('~/.kani/kani-0.68.0')
 KANI_LIB_C = os.path.join(KANI_HOME, 'library/kani/kani_lib.c')
-PLAYBACK_DIR = os.path.join(BUILD, 'playback')
+PLAYBACK_DIR = os.path.join(ROOT, '.build', 'playback')   # fixed: the harness files include! it by absolute path
 
 BASE_FEATURES = 'builtins,macros,multi_template,adjacent_loop_items,std_collections,fuel,loop_controls'
 GROUPS = {
@@ -440,7 +442,7 @@ def native_playback(group, tests_by_file, cap=900):
     g = GROUPS[group]
     written = []
     import fcntl
-    lock = open(os.path.join(BUILD, 'playback.lock'), 'w')
+    lock = open(os.path.join(ROOT, '.build', 'playback.lock'), 'w')
     fcntl.flock(lock, fcntl.LOCK_EX)  # the include files are shared by all checks
     try:
         for f, tests in tests_by_file.items():
@@ -555,7 +557,8 @@ def run_property(prop, tier, seed, only=None, list_only=False, jobs=10, write_ev
     # ---- failing harnesses: get the solver's assignment from the real driver, replay natively
     violations, known_hits = [], []
     failing = [r for r in results if r['status'] == 'fail']
-    replay_dir = os.path.join(ROOT, 'evidence', 'replay')
+    import nativelib
+    replay_dir = nativelib.replay_dir()
     if failing:
         os.makedirs(replay_dir, exist_ok=True)
     by_group = {}
